@@ -12,8 +12,9 @@ def session_probe(srv, i, sc):
     """project the in-memory session of instance i: (clock, settings log as list of k values; 0 = none/empty)"""
     inst = srv.app._instance_manager._instances.get(srv.uid(i))
     if inst is None or inst["instance"].session_state is None:
-        return 0, []
+        return 0, [], {}
     st = inst["instance"].session_state
+    keys = {name: sorted(S.spec_t(k) for k in (st.get(name) or {})) for name in ("settings_log", "results_log")}
     log = st["settings_log"]
     out = []
     for key in sorted(log, key=lambda x: float(x)):
@@ -22,14 +23,15 @@ def session_probe(srv, i, sc):
             out.append(int(v["sm"][sc]["constants"]["k"]) if v else 0)
         except Exception:
             out.append("?%s" % (v,))
-    return float(st["step"]), out
+    return S.spec_t(st["step"]), out, keys
 
 
-def replay(hist, *, stop, adapter, unit="seconds", compress=False, srv=None, tear=None, base_constants=False, observe=None, probe=False, known=None, two=False):
+def replay(hist, *, stop, adapter, unit="seconds", compress=False, srv=None, tear=None, base_constants=False, observe=None, probe=False, known=None, two=False,
+           grid=(1.0, 1.0)):
     """returns None when the real server answers as the history says, else a dict describing the first mismatch.
     Expected values are the *intended* ones (`want`) when the history carries them."""
     own = srv is None
-    srv = srv or S.Srv(stop=stop, adapter=adapter, compress=compress, unit=unit, base_constants=base_constants, two=two)
+    srv = srv or S.Srv(stop=stop, adapter=adapter, compress=compress, unit=unit, base_constants=base_constants, two=two, grid=grid)
     sess = {}       # symbolic id -> scenario of the current session (for projections)
     stopped = set()
     try:
@@ -45,9 +47,16 @@ def replay(hist, *, stop, adapter, unit="seconds", compress=False, srv=None, tea
             def do_probe():
                 if "clock" not in h:
                     return None
-                clock, slog = session_probe(srv, h["i"], sess.get(h["i"], "base"))
+                clock, slog, keys = session_probe(srv, h["i"], sess.get(h["i"], "base"))
                 if abs(clock - h["clock"]) > 1e-9:
                     return mism("session clock", h["clock"], clock)
+                # the step-keyed logs of the live session are keyed by exactly the grid times of the steps taken so far
+                # (in step numbers: 1 .. clock-1); the compressed format renumbers them, which is KF-C19-1
+                if not compress:
+                    for name, ks in keys.items():
+                        want_keys = [float(j) for j in range(1, int(round(h["clock"])))]
+                        if len(ks) != len(want_keys) or any(abs(a - b) > 1e-9 for a, b in zip(ks, want_keys)):
+                            return mism("step keys of the session's %s (in step numbers)" % name, want_keys, ks)
                 if slog != list(h["slog"]):
                     # the compressed format keeps one value list per constant and renumbers from 1.0:
                     # steps without settings vanish from the log (D15)
